@@ -945,6 +945,16 @@ func (w *c11World) bodies(ct byte, pt packet.Type, req string, thorough bool, se
 		// optional/extra body members naming objects: the handler's own body plus every
 		// object-id-looking field aimed at the victims' / at S's objects
 		out = append(out, [2]string{"aimA-oids", w.mergeObjIDs(wf("aimA"), "aimA", req)}, [2]string{"aimB-oids", w.mergeObjIDs(wf("aimB"), "aimB", req)})
+		// duplicate / case-variant keys: every member whose value differs between the request
+		// aimed at the requester's own objects and the one aimed at foreign objects appears
+		// twice — exact spelling with the own value, another casing with the foreign value —
+		// in both orders (decoders differ in which duplicate and which casing they honour)
+		ownKind, foreignKind := "aimA", "aimB"
+		if req == "S" {
+			ownKind, foreignKind = "aimB", "aimA"
+		}
+		own, foreign := w.mergeObjIDs(wf(ownKind), ownKind, req), w.mergeObjIDs(wf(foreignKind), foreignKind, req)
+		out = append(out, [2]string{"dup-own-first", c11DupKeys(own, foreign, true)}, [2]string{"dup-foreign-first", c11DupKeys(own, foreign, false)})
 	}
 	if w.MH != nil {
 		out = append(out, [2]string{"aimH", wf("aimH")}, [2]string{"aimG", wf("aimG")})
@@ -1044,6 +1054,34 @@ func c11OverrideIDs(body string, third int64) string {
 		m[k] = third
 	}
 	return c11J(m)
+}
+
+// c11DupKeys builds a raw JSON object (key order matters) from two object bodies.
+func c11DupKeys(own, foreign string, ownFirst bool) string {
+	var o, f map[string]json.RawMessage
+	if json.Unmarshal([]byte(own), &o) != nil || json.Unmarshal([]byte(foreign), &f) != nil {
+		return own
+	}
+	keys := make([]string, 0, len(o))
+	for k := range o {
+		keys = append(keys, k)
+	}
+	sort.Strings(keys)
+	var exact, variant []string
+	for _, k := range keys {
+		exact = append(exact, fmt.Sprintf("%q:%s", k, o[k]))
+		if fv, ok := f[k]; ok && string(fv) != string(o[k]) {
+			alt := strings.ToUpper(k[:1]) + k[1:]
+			if !ownFirst {
+				alt = strings.ToUpper(k)
+			}
+			variant = append(variant, fmt.Sprintf("%q:%s", alt, fv))
+		}
+	}
+	if ownFirst {
+		return "{" + strings.Join(append(exact, variant...), ",") + "}"
+	}
+	return "{" + strings.Join(append(variant, exact...), ",") + "}"
 }
 
 func c11IsHandled(ct byte) bool {
@@ -1734,6 +1772,12 @@ func (d *c11Driver) one(ct byte, pt packet.Type, req, kind, forge string, bodyOf
 	w.judge(cs, cmd, out)
 	fp := w.fingerprint(cs, cmd, out)
 	d.run.Distinct(fmt.Sprintf("%d/%d/%s/%s/%s/%+v", ct, pt, req, kind, forge, d.state))
+	if strings.HasPrefix(kind, "dup-") {
+		d.run.Count("dup_key_bodies_run", 1)
+	}
+	if strings.HasSuffix(kind, "-oids") {
+		d.run.Count("object_id_member_bodies_run", 1)
+	}
 	if out.Success {
 		d.run.Count("success_responses", 1)
 		d.reached[ct] = true
@@ -1849,7 +1893,7 @@ func (d *c11Driver) sweep(types []byte, pts []packet.Type, forges []string, thor
 						}
 					}
 					for _, f := range forges {
-						if strings.HasSuffix(kind, "-oids") {
+						if strings.HasSuffix(kind, "-oids") || strings.HasPrefix(kind, "dup-") {
 							break // object-id members are themselves the forgery of this body kind
 						}
 						if (f == "bodyids" || f == "all") && !strings.HasPrefix(kind, "aim") && kind != "default" {
@@ -1912,7 +1956,7 @@ func c11AllTypes() []byte {
 func TestVerifC11Table(t *testing.T) {
 	run := vk.Start(t, "C11", "table")
 	defer run.Finish()
-	run.Rule("every CommandType byte 0..255 as JsonCommand (quick: CommandResp only for registered/special-cased types; thorough: CommandResp for all) x requester {U0 no handshake, U1 phase-1 for V1's id only, V1 listen party, V2 target party, S unrelated authenticated} x body {handler's well-formed body aimed at the victims' objects, same aimed at S's objects, same aimed at a server-listened mapping (ListenClientID 0 -> V2), the first two again with object-id members (mapping_id, code, domain ids, filters) added and with every receiver/identity-looking body field naming a non-party client, DNS default-target, empty, truncated JSON (+4 malformed mutants thorough)} x forgery {none, victim ids in SenderId/ReceiverId, victim's secret in Token, victim's id in Token, identity fields added to the body (+swapped ids, all combined thorough)}; a case is distinct by that tuple; then, for the registered and special-cased types, again with the mappings in state {revoked by a party, expired but stored, inactive} and the connection codes in state {revoked, expired but stored, activated}; worlds (fresh mini server + objects with fresh markers) are rebuilt after every state-changing case")
+	run.Rule("every CommandType byte 0..255 as JsonCommand (quick: CommandResp only for registered/special-cased types; thorough: CommandResp for all) x requester {U0 no handshake, U1 phase-1 for V1's id only, V1 listen party, V2 target party, S unrelated authenticated} x body {handler's well-formed body aimed at the victims' objects, same aimed at S's objects, same aimed at a server-listened mapping (ListenClientID 0 -> V2), the own-object body with case-variant duplicate keys carrying the foreign values (both orders), the first two again with object-id members (mapping_id, code, domain ids, filters) added and with every receiver/identity-looking body field naming a non-party client, DNS default-target, empty, truncated JSON (+4 malformed mutants thorough)} x forgery {none, victim ids in SenderId/ReceiverId, victim's secret in Token, victim's id in Token, identity fields added to the body (+swapped ids, all combined thorough)}; a case is distinct by that tuple; then, for the registered and special-cased types, again with the mappings in state {revoked by a party, expired but stored, inactive} and the connection codes in state {revoked, expired but stored, activated}; worlds (fresh mini server + objects with fresh markers) are rebuilt after every state-changing case")
 	d := &c11Driver{t: t, run: run, settle: map[byte]bool{}, reached: map[byte]bool{}, record: map[string]string{}}
 	defer func() {
 		if d.w != nil {
@@ -2073,6 +2117,8 @@ func TestVerifC11Table(t *testing.T) {
 	run.Floor("effects_by_party", 5)
 	run.Floor("metamorphic_pairs", 1000)
 	run.Floor("metamorphic_body_id_pairs", 1000)
+	run.Floor("dup_key_bodies_run", 150)
+	run.Floor("object_id_member_bodies_run", 150)
 	if run.Counter("watchdog") > 0 {
 		run.Floor("watchdog_free", 1) // a watchdog firing makes the run inconclusive
 	}
